@@ -462,11 +462,11 @@ def try_into(m, cfg, f, args, t):
     a = f.get('rargs') or f.get('args')
     if a and len(a) >= 2 and int_info(a[0]) and int_info(a[1]):
         return narrow(m, cfg, args[0], a[1], ok, lambda: err(TRY_ERR))
-    if a and len(a) >= 2:
-        for pat in ('<%s as std::convert::TryFrom<%s>>::try_from', '<%s as core::convert::TryFrom<%s>>::try_from'):
-            inst = m.prog.get(pat % (a[1], a[0]))
-            if inst is not None:
-                return CallThen(FnItem({'rkey': inst['key'], 'rpath': inst['path'], 'path': inst['path'], 'rkind': 'item'}), [args[0]])
+    via = f.get('via')
+    if via:
+        inst = m.prog.get(via['rkey'])
+        if inst is not None:
+            return CallThen(FnItem({'rkey': inst['key'], 'rpath': inst['path'], 'path': inst['path'], 'rkind': 'item'}), [args[0]])
     return NotImplemented
 
 
@@ -502,8 +502,11 @@ def into(m, cfg, f, args, t):
             return args[0]
         if a[0] == 'char' and a[1] == 'u32':
             return args[0]
-        for pat in ('<%s as std::convert::From<%s>>::from', '<%s as core::convert::From<%s>>::from'):
-            inst = m.prog.get(pat % (a[1], a[0]))
+        via = f.get('via')
+        if via:
+            if via['rpath'] in P:
+                return P[via['rpath']](m, cfg, dict(f, rpath=via['rpath'], rkey=via['rkey']), args, t)
+            inst = m.prog.get(via['rkey'])
             if inst is not None:
                 return CallThen(FnItem({'rkey': inst['key'], 'rpath': inst['path'], 'path': inst['path'], 'rkind': 'item'}), [args[0]])
         # std conversions that are value-preserving wrappers
